@@ -1002,10 +1002,15 @@ class CliCommands(Family):
 
         from cryptography import x509
 
+        import logging
+
         tmp = tempfile.mkdtemp(prefix="nv-")
         peer = None
         saved = {k: os.environ.get(k) for k in ("HOME", "SSL_CERT_FILE", "NO_COLOR")}
         cwd = os.getcwd()
+        alog = logging.getLogger("asyncio")
+        alog_level = alog.level
+        alog.setLevel(logging.CRITICAL + 1)   # "Future exception was never retrieved" of a command's own loop (a peer that closes early)
         try:
             certs = {}
             for nm, pems in (("A", harness_cert()), ("B", harness_cert_b())):
@@ -1064,6 +1069,7 @@ class CliCommands(Family):
             return {"argv": [a.replace(str(peer.port), "<port>").replace(tmp, "<tmp>") for a in argv], "steps": steps}
         finally:
             os.chdir(cwd)
+            alog.setLevel(alog_level)
             if peer:
                 peer.close()
             for k, v in saved.items():
